@@ -5,6 +5,7 @@ package integration
 // PROXY header is stripped exactly and its addresses are honoured.
 
 import (
+	"os"
 	"bytes"
 	"context"
 	"encoding/json"
@@ -179,6 +180,8 @@ func genChain(r *vrng, id int) chainCase {
 		}
 		return map[string]any{"handler": "vrec", "id": rid, "take": take, "rsz": r.pick(1, 7, 512, 4096, 32768), "term": term}
 	}
+	// how much the route's own matcher forces into the matching buffer
+	need := r.pick(0, 0, 1, 20, 2048, 2049, 4097, 6000, 8192)
 	n := r.intn(4)
 	for i := 0; i < n; i++ {
 		switch r.intn(4) {
@@ -200,19 +203,23 @@ func genChain(r *vrng, id int) chainCase {
 			handlers = append(handlers, rec(take, false))
 			desc = append(desc, fmt.Sprintf("rec(%d)", take))
 		case 3:
-			need := r.pick(0, 1, 10, 2049, 4097)
-			if need > len(c.payload)-pos {
-				need = 0 // the nested route must be able to match on what is left of the stream
+			ineed := r.pick(0, 1, 10, 2049, 4097)
+			if ineed > len(c.payload)-pos {
+				ineed = 0 // the nested route must be able to match on what is left of the stream
+			}
+			if need >= 8192 && pos < 8192+2048 {
+				// the matching buffer is full and (partly) unread: a nested matcher asking for more than is left in it runs
+				// into the buffer limit and the connection is dropped — conforming behaviour (C05), not a routing failure
+				ineed = 0
 			}
 			take := r.pick(0, 2, 100)
-			inner := []map[string]any{{"match": []map[string]any{{"vneed": map[string]any{"n": need}}}, "handle": []map[string]any{rec(take, false)}}}
+			inner := []map[string]any{{"match": []map[string]any{{"vneed": map[string]any{"n": ineed}}}, "handle": []map[string]any{rec(take, false)}}}
 			handlers = append(handlers, map[string]any{"handler": "subroute", "routes": inner})
-			desc = append(desc, fmt.Sprintf("subroute(need %d, rec %d)", need, take))
+			desc = append(desc, fmt.Sprintf("subroute(need %d, rec %d)", ineed, take))
 		}
 	}
 	handlers = append(handlers, rec(-1, true))
 	desc = append(desc, "rec(all)")
-	need := r.pick(0, 0, 1, 20, 2048, 2049, 4097, 6000, 8192)
 	c.routes = []map[string]any{{"match": []map[string]any{{"vneed": map[string]any{"n": need}}}, "handle": handlers}}
 	c.desc = fmt.Sprintf("payload=%d need=%d chain=%s", plen, need, strings.Join(desc, ","))
 	c.chunks = split(r, c.stream)
@@ -321,6 +328,9 @@ func TestVerifChain(t *testing.T) {
 		fmt.Fprintf(out.cases, "chain %s chunks=%d\n", c.desc, len(c.chunks))
 		out.cases.Flush()
 		conns := r.pick(1, 1, 2, 3)
+		if only := os.Getenv("VERIF_ONLY"); only != "" && only != fmt.Sprint(i) {
+			continue
+		}
 		sig, desc := runChain(t, ctx, c, conns)
 		if conns > 1 {
 			stats["chains serving several connections"]++
